@@ -13,7 +13,7 @@ import (
 )
 
 func init() {
-	register(&Rule{ID: "P-DEAD-TOKEN-TEST", Props: []string{"C02", "C08", "C04", "C01"}, Floor: 30,
+	register(&Rule{ID: "P-DEAD-TOKEN-TEST", Props: []string{"C02", "C08", "C04", "C01"}, Floor: 20,
 		Doc: "no token test is unreachable: in a run of consecutive if statements on the same token field, a test that follows `if tok != X { return }` must be about X; inside `case X:` of a switch on a token field, a test of the same field against another token before any advance is dead (it was meant for the look-ahead token)",
 		Run: rulePDeadTokenTest})
 }
